@@ -44,7 +44,7 @@ P['C13'] = {
     'assumptions': ['find_right_crc contract trusted; spec_crc / spec_byte are tied to calc_crc / bits2byte only through the Kani group', 'chunk independence of HdlcDeframer (C08) is not claimed: the automaton state is carried in self.state and work() applies update_state bit by bit, but no mirror function of the whole automaton is proved'],
 }
 P['C14'] = {
-    'units': ['kani:codecs', 'fsrc', 'tcp', 'au'],
+    'units': ['kani:codecs', 'fsrc', 'tcp', 'au', 'bx:auenc'],
     'technique': 'Kani/CBMC loop-free full-domain proofs of Sample::{serialize,parse,size} for u8,u32,i32,f32,Complex',
     'level_text': 'Codecs + file source: FileSource::work reassembles exactly the file\'s samples for EVERY segmentation of the byte stream (read() may return any 1..=len bytes, incl. splits inside a sample), repeated `count` times (Verus, stream + reader contract). parse(serialize(x)) is bit-identical to x for every bit pattern (NaN payloads included), serialize(x).len() == size(), parse never errs on size() bytes and serialize(parse(d)) == d for every byte pattern; Complex wire order I then Q, little endian. TcpSource::work likewise for a socket. AuDecode::work: header state machine, then exactly one sample per two payload bytes (no extra or missing samples). SigMF, AuEncode and the sink-then-source file round trip are NOT decided.',
     'level_note': 'Loop-free harnesses over the full input domain are complete proofs. FileSource, TcpSource, SigMFSource, AuEncode/AuDecode use BufReader, sockets, tar, serde_json and iterator chains: outside Verus\' subset; Kani cannot run streams.',
